@@ -120,15 +120,17 @@ def pReply {α} (p : TP α) : TP (Reply α) := do
   | "unauth" => return .unauth (← hex)
   | "notfound" => return .notfound
   | "status" => return .status
+  | "statusbig" => return .status     -- a 5xx with a 10 MB body
   | "follow" => return .follow
   | _ => failure
 
 def pMBody : TP MBody := do
   let t ← tok
-  match t with
-  | "served" => pure .served
-  | "badjson" => pure .badjson
-  | _ => failure
+  -- "badjson-<shape>": a 200 whose body is not a manifest for encoding/json (wrong JSON shape, wrong types, bad
+  -- encoding …); the shape only matters to the driver
+  if t == "served" then pure .served
+  else if t.startsWith "badjson" then pure .badjson
+  else failure
 
 def pDir : TP DirRep := do
   let t ← tok
@@ -198,6 +200,12 @@ def pAttempt : TP Scripts := do
     | "writing" => pure (some CancelPoint.writing)
     | "verifying" => do return some (CancelPoint.verifying (← nat))
     | _ => failure : TP (Option CancelPoint))
+  -- driver-only realisation details (replay): the JSON shape of each scripted token answer, and whether the 401 at
+  -- the head of the manifest script is produced by a registry that really validates bearer tokens
+  expect "tokshape"
+  let _ ← listOf tok
+  expect "validate"
+  let _ ← nat
   pure ⟨ms, ts, ls, cp⟩
 
 def pPart : TP Part := do
@@ -314,6 +322,8 @@ def pPull : TP String := do
   let content ← listOf (do let d ← hex; let c ← hex; pure (d, c))
   expect "attempts"
   let atts ← listOf pAttempt
+  expect "raw"      -- driver-only: the JSON shape in which the manifest `reg` is served
+  let _ ← tok
   let st : Store := { blobs := ofAssoc none (blobs.map fun (d, c) => (d, some c)),
                       partials := ofAssoc Partial.none partials, manifests := mans }
   let reg : Registry := ⟨m, content, realm⟩
